@@ -1014,6 +1014,13 @@ int main(int argc, char** argv)
     // ordering of the whole unsigned char range / of negative wchar_t values
     m.job("char/str/highbit", both, [](mc::Reporter& r) { sweep_strings<char>(r, {'a', char(0x7F), char(0x80), char(0xFF)}, 3, 0, 1); });
     m.job("wchar_t/str/extreme", both, [](mc::Reporter& r) { sweep_strings<wchar_t>(r, {L'a', wchar_t(0xFFFF), WCHAR_MAX, WCHAR_MIN}, 3, 0, 1); });
+    // wide units that collide when truncated to 8 / 16 bits, one of them negative (added after seeded breakage
+    // c18_wcsspn_byte_set_negative_wchar: a 256-entry membership set for wcsspn/wcscspn/wcspbrk admitted every
+    // ch <= 0xFF - negative wchar_t included - and indexed it by the low byte; needs a negative unit AND a partner
+    // with the same low byte, which {a, 0xFFFF, WCHAR_MAX, WCHAR_MIN} does not contain)
+    m.job("wchar_t/str/collisions", both, [](mc::Reporter& r) { sweep_strings<wchar_t>(r, {L'a', wchar_t(0x161), wchar_t(0x10061), wchar_t(0xFFFFFF61), wchar_t(-1), wchar_t(0xFF)}, 2, 0, 1); });
+    m.job("wchar_t/str/collisions3", th, [](mc::Reporter& r) { sweep_strings<wchar_t>(r, {L'a', wchar_t(0x161), wchar_t(0xFFFFFF61), wchar_t(-1), wchar_t(0xFF)}, 3, 0, 1); });
+    m.job("wchar_t/mem/collisions", both, [](mc::Reporter& r) { sweep_mem<wchar_t>(r, {L'a', wchar_t(0x161), wchar_t(0x10061), wchar_t(0xFFFFFF61), wchar_t(0)}, 3, 4); });
     m.job("char/search/hay8", q, [](mc::Reporter& r) { sweep_search<char>(r, {'a', 'b'}, 8, 4, 0, 1); });
     m.job("wchar_t/search/hay8", q, [](mc::Reporter& r) { sweep_search<wchar_t>(r, {L'a', L'b'}, 8, 4, 0, 1); });
     m.job("char/mem/len4", q, [](mc::Reporter& r) { sweep_mem<char>(r, {char(0), 'a', char(0x80)}, 4, 8); });
